@@ -550,7 +550,7 @@ func genTarget(r *mon.Run, tg *target, idx int) reflect.Value {
 		t = reflect.TypeOf(TxMirror{})
 	}
 	p := reflect.New(t)
-	genBudget = 200 << 10
+	genBudget, genElems = 200<<10, 2000
 	genValue(rng, p.Elem(), 0, false)
 	return p
 }
